@@ -195,6 +195,15 @@ func (g *ugen) branch(depth int) any {
 	if g.r.IntN(8) == 0 {
 		return g.r.IntN(3) > 0
 	}
+	if lo := g.cur + 1; lo < g.ndefs && g.r.IntN(7) == 0 {
+		// a branch that is NOTHING BUT two references (one may hold, the other fail): what the first target evaluated counts only
+		// if the whole branch holds
+		b := map[string]any{"$ref": fmt.Sprintf("#/$defs/d%d", lo+g.r.IntN(g.ndefs-lo)), "$dynamicRef": fmt.Sprintf("#/$defs/d%d", lo+g.r.IntN(g.ndefs-lo))}
+		if g.r.IntN(3) == 0 {
+			b["$comment"] = "both references must hold"
+		}
+		return b
+	}
 	return g.node(depth, false)
 }
 
